@@ -170,6 +170,27 @@ class Design:
     self.vi[id(chain)] = (chain, txt)
     return chain
 
+  def gen_var_slice(self, w, readable):
+    """`s.x[ zext(s.sel, 8) : zext(s.sel, 8) + w ]`: a part select whose bounds are read from a signal.  Model side: a mux
+    chain over the values of the index.  The implementation records a read of the whole of `x`, so only signals whose whole
+    value is already available are used."""
+    rng = self.rng
+    nb = rng.choice([1, 1, 2])
+    K = (1 << nb) - 1
+    rset = set(readable)
+    xs = [sg for sg in self.sigs if sg.comp == '' and sg.stype is None and sg.name != 'reset' and sg.width >= w + K
+          and (sg.idx, 0, sg.width) in rset and not re.search(r'\[\d+\]$', sg.name)]
+    sels = [(g, l, x) for (g, l, x) in readable if x == nb and (l, l + x) in self.leaf_bounds(self.sigs[g]) and self.sigs[g].name != 'reset']
+    if not xs or not sels: return None
+    x = rng.choice(xs); sel = rng.choice(sels)
+    if sel[0] == x.idx: return None
+    chain = ('r', x.idx, K, w)
+    for k in range(K - 1, -1, -1):
+      chain = ('m', ('b', 'eq', nb, ('r',) + sel, ('c', nb, k)), ('r', x.idx, k, w), chain)
+    st = self.ref('', sel)
+    self.vi[id(chain)] = (chain, f's.{x.name}[ zext( {st}, 8 ) : zext( {st}, 8 ) + {w} ]')
+    return chain
+
   def gen_helper_call(self, w, readable):
     """part of an expression computed by an `@s.func` helper of the top component; helpers are shared between blocks (the
     reads of a helper belong to EVERY block that calls it).  Model side: the expression is inlined."""
@@ -197,6 +218,9 @@ class Design:
       if e is not None: return e
     if rng.random() < 0.2:
       e = self.gen_var_index(w, readable)
+      if e is not None: return e
+    if self.allow_helpers and rng.random() < 0.08:      # top-level blocks only (the text is rendered from the top)
+      e = self.gen_var_slice(w, readable)
       if e is not None: return e
     cands = [r for r in readable if r[2] >= w]
     if cands and rng.random() < 0.8:
